@@ -213,6 +213,38 @@ func runC17(c *kit.Ctx) {
 			}
 			return false
 		}
+		// an insert helper: a function of package torrent that registers the downloader on
+		// every path and is only called (statically) from startSinglePieceDownloader
+		insertHelper := func(f *ssa.Function) bool {
+			if f == nil || f.Blocks == nil || f == ssd || !inPkg(f, c, "torrent") {
+				return false
+			}
+			sites := c.StaticCallSites(f)
+			if len(sites) == 0 {
+				return false
+			}
+			for _, site := range sites {
+				if site == nil || site.Parent() != ssd {
+					return false
+				}
+			}
+			fl := (&kit.Flow{P: c.Prog, Fn: f, Instr: func(ins ssa.Instruction, in bool) bool {
+				if isMapUpdateOf(ins, fPD) {
+					return true
+				}
+				return in
+			}}).Solve()
+			return len(returnsOf(f)) > 0 && len(fl.FailingReturns()) == 0
+		}
+		isInsert := func(ins ssa.Instruction) bool {
+			if isMapUpdateOf(ins, fPD) {
+				return true
+			}
+			if call, ok := ins.(*ssa.Call); ok {
+				return insertHelper(call.Call.StaticCallee())
+			}
+			return false
+		}
 		// the `started` flag: local bool captured by the deferred closure
 		var started *ssa.Alloc
 		var deferred *ssa.Function
@@ -242,7 +274,7 @@ func runC17(c *kit.Ctx) {
 		if deferred == nil || started == nil {
 			// no deferred-release idiom: require direct pairing
 			rel := (&kit.Flow{P: c.Prog, Fn: ssd, Instr: func(ins ssa.Instruction, in bool) bool {
-				if isRelease(ins) || isMapUpdateOf(ins, fPD) {
+				if isRelease(ins) || isInsert(ins) {
 					return true
 				}
 				return in
@@ -265,7 +297,7 @@ func runC17(c *kit.Ctx) {
 					return in
 				}}).Solve()
 			}
-			ins1 := func(i ssa.Instruction) bool { return isMapUpdateOf(i, fPD) }
+			ins1 := func(i ssa.Instruction) bool { return isInsert(i) }
 			mustIns, mustNotIns := mk(false, ins1, nil), mk(true, nil, ins1)
 			mustSt, mustNotSt := mk(false, storeStarted, nil), mk(true, nil, storeStarted)
 			ok := true
@@ -327,7 +359,7 @@ func runC17(c *kit.Ctx) {
 		// inserts only in startSinglePieceDownloader
 		for _, fn := range c.ModuleFunctions() {
 			kit.Instrs(fn, func(ins ssa.Instruction) {
-				if isMapUpdateOf(ins, fPD) && fn != ssd {
+				if isMapUpdateOf(ins, fPD) && fn != ssd && !insertHelper(fn) {
 					c.Bad("R17.2", k.key(fn, "insert pieceDownloaders"), posOf(ins), "piece downloader registered outside startSinglePieceDownloader (no reservation)")
 				}
 			})
